@@ -140,6 +140,8 @@ int main(int argc, char **argv)
         fprintf(f, "{\"kind\":%d,\"n\":%d,\"aux\":%d,\"A\":", kind, n, aux);
         { double dA[160]; for (int i = 0; i < nn; ++i) { dA[i] = (double)A[i]; } put_dyadics(f, dA, nn); }
         put_m(f, "b", b, n);
+        a_real xs[16];
+        int xs_ok = 1;
         if (kind <= 2)
         {
             a_uint p[16];
@@ -185,11 +187,24 @@ int main(int argc, char **argv)
                 a_real_ldl_D((a_uint)n, W, d);
                 memcpy(x, b, sizeof(a_real) * (size_t)n);
                 a_real_ldl_solve((a_uint)n, W, x);
+                {
+                    /* the strided pair (a right-hand side stored as the last column of a matrix of decoys) */
+                    a_real M[160];
+                    int okd = 1;
+                    for (int i = 0; i < nn; ++i) { M[i] = (a_real)(1000 + i); }
+                    for (int r = 0; r < n; ++r) { M[r * n + n - 1] = b[r]; }
+                    a_real_ldl_lower_((a_uint)n, W, M + n - 1);
+                    a_real_ldl_upper_((a_uint)n, W, M + n - 1);
+                    for (int i = 0; i < nn; ++i) { if (i % n != n - 1 && M[i] != (a_real)(1000 + i)) { okd = 0; } }
+                    for (int r = 0; r < n; ++r) { xs[r] = M[r * n + n - 1]; }
+                    xs_ok = okd;
+                }
                 a_real_ldl_inv((a_uint)n, W, tmp, I1);
                 a_real_ldl_inv_((a_uint)n, W, I2);
                 put_m(f, "L", L, nn);
                 put_m(f, "D", d, n);
                 put_m(f, "x", x, n);
+                put_m(f, "xs", xs, n); fprintf(f, ",\"xs_ok\":%d", xs_ok);
                 put_m(f, "inv", I1, nn);
                 put_m(f, "inv2", I2, nn);
                 fputs(",\"det\":", f);
@@ -209,10 +224,23 @@ int main(int argc, char **argv)
                 a_real_llt_L((a_uint)n, W, L);
                 memcpy(x, b, sizeof(a_real) * (size_t)n);
                 a_real_llt_solve((a_uint)n, W, x);
+                {
+                    /* the strided pair (a right-hand side stored as the last column of a matrix of decoys) */
+                    a_real M[160];
+                    int okd = 1;
+                    for (int i = 0; i < nn; ++i) { M[i] = (a_real)(1000 + i); }
+                    for (int r = 0; r < n; ++r) { M[r * n + n - 1] = b[r]; }
+                    a_real_llt_lower_((a_uint)n, W, M + n - 1);
+                    a_real_llt_upper_((a_uint)n, W, M + n - 1);
+                    for (int i = 0; i < nn; ++i) { if (i % n != n - 1 && M[i] != (a_real)(1000 + i)) { okd = 0; } }
+                    for (int r = 0; r < n; ++r) { xs[r] = M[r * n + n - 1]; }
+                    xs_ok = okd;
+                }
                 a_real_llt_inv((a_uint)n, W, tmp, I1);
                 a_real_llt_inv_((a_uint)n, W, I2);
                 put_m(f, "L", L, nn);
                 put_m(f, "x", x, n);
+                put_m(f, "xs", xs, n); fprintf(f, ",\"xs_ok\":%d", xs_ok);
                 put_m(f, "inv", I1, nn);
                 put_m(f, "inv2", I2, nn);
                 fputs(",\"det\":", f);
